@@ -308,7 +308,9 @@ func Shrink(c *Check, t *testing.T, s *Scn, v *Violation, deadline time.Time) (*
 			return false
 		}
 		o := safeRun(c, t, cand)
-		if o.V != nil && o.V.Oracle == v.Oracle {
+		// same oracle, and never into a recorded finding: a violation that is not on the list must not be
+		// minimised into one that is (the report would then name the recorded finding's history)
+		if o.V != nil && o.V.Oracle == v.Oracle && (IsKnown(v.Sig) || !IsKnown(o.V.Sig)) {
 			cur, curV = cand, o.V
 			return true
 		}
